@@ -220,7 +220,10 @@ where (x(1:n:2) > 0.0_wp) y(1:n:2) = 0.0_wp""")
             "ix(:) = mod(ix(:), 3) - k", "x = real(ix, wp) * 0.5_wp", "flag = any(x > t)",
             "k = count(x > 0.0_wp)", "flag = all(ix == 0)", "x = merge(y, z, y > z)", "r = minval(x(i1:i2))",
             "x(:) = x(1)", "x2(i1,:) = x2(i2,:)", "r = maxval(abs(x - y))", "x = -y", "x = (y)", "x = y / z",
-            "x = y ** 2", "ix = ix / 2 * 2", "x = y * (-1.0_wp)"]
+            "x = y ** 2", "ix = ix / 2 * 2", "x = y * (-1.0_wp)",
+            # the same explicit range in two dimensions whose declared bounds differ
+            "x2(1:n,1:n) = 2.0_wp", "r = sum(x2(1:m2,1:m2))", "x2(1:i1,1:i1) = y2(1:i1,1:i1) + t",
+            "y2(2:n,2:n) = x2(2:n,2:n)"]
     for v, b in enumerate(arrs):
         add("arr", {"v": v}, b)
     # ---------------------------------------------------------------- loops / control flow
